@@ -108,6 +108,11 @@ class HTTP2Connection(ConnectionInterface):
         try:
             with self._init_lock:
                 if not self._sent_connection_init:
+                    if self._state == HTTPConnectionState.CLOSED:
+                        # Another request has already attempted to initialise
+                        # the connection, and failed.
+                        raise ConnectionNotAvailable()
+
                     try:
                         kwargs = {"request": request}
                         with Trace("send_connection_init", logger, request, kwargs):
